@@ -8,3 +8,10 @@ import FatVerif.Props.SpecSanity
 import FatVerif.Props.C15
 import FatVerif.Props.C16
 import FatVerif.Props.C18
+import FatVerif.Props.C17
+import FatVerif.Props.C19
+import FatVerif.Props.C15lfn
+import FatVerif.Props.C07
+import FatVerif.Props.C10
+import FatVerif.Props.C05
+import FatVerif.Props.C03fat
